@@ -51,6 +51,8 @@ def tracegen_jobs(tier):
         for kind, blen in [("empty", 0), ("zero", 64), ("ff", 64), ("ramp", 300), ("random", 1), ("random", 2), ("ff", 3000), ("zero", 3000)]:
             J.bytes_job(cfg(P, **small), kind=kind, blen=blen)
             J.bytes_job(cfg(P), kind=kind, blen=blen)
+            J.bytes_job(cfg(P, 10, 60, ext=True, buf=True), kind=kind, blen=blen)
+            J.bytes_job(cfg(P, 10, 60, muts=MUTS, rate=1.0, ext=True, buf=True), kind=kind, blen=blen)
         # C opcode-range corner cases
         for (mn, mx) in [(0, 0), (1, 1), (50, 3), (7, 7), (0, 5), (2, 3)]:
             for _ in range(2 if q else 8):
